@@ -40,6 +40,11 @@ fn real_main() -> i32 {
             run_engine(&mut e, &opts)
         }
         "bytecode" => run_engine(&mut caoverif::e_bytecode::BytecodeEngine {}, &opts),
+        "budget" => run_engine(&mut caoverif::e_budget::BudgetEngine {}, &opts),
+        "lifecycle" => {
+            let mut e = caoverif::e_lifecycle::LifecycleEngine { property: opts.x("property").unwrap_or("c17").to_string() };
+            run_engine(&mut e, &opts)
+        }
         other => {
             eprintln!("unknown engine {other}");
             64
